@@ -678,4 +678,105 @@ theorem T_C20_mesh_others (s : MeshSt) (op : MeshOp) (h : op = .add ∨ op = .as
 example : assembledSpec [MeshOp.grade, .assemble, .add].reverse.reverse = true ∧
     assembledSpec [MeshOp.clear, .assemble, .add] = false ∧ assembledSpec [MeshOp.assemble] = false := by decide
 
+/-! ### more than two projection surfaces on an edge: every path, all histories -/
+
+/-- **one edge, any stored labels**: labels `new` (non-empty, no repetition) are accepted on an edge that carries
+    `stored` iff the union has at most two members — whether the edge is fresh (`Project(new)`) or already projected
+    (`add_label`); the union is `mergeLabels` (exactly the labels of both lists, without repetition, by
+    `T_C20_project_add_label`) -/
+theorem T_C20_slot_update (stored new : List Nat) (hne : new ≠ []) (hnd : new.Nodup) :
+    (slotUpdate stored new).1 = .accept ↔ (mergeLabels stored new).length ≤ 2 := by
+  have hpos : 0 < new.length := List.length_pos_iff.mpr hne
+  simp only [slotUpdate]
+  by_cases he : stored.isEmpty = true
+  · have : stored = [] := by simpa using he
+    subst this
+    rw [mergeLabels_nil new hnd]
+    split_ifs with h1 <;> simp <;> omega
+  · have hlen := mergeLabels_length stored new
+    have : 0 < stored.length := by
+      cases stored with
+      | nil => simp at he
+      | cons a t => simp
+    split_ifs with h1 <;> simp <;> omega
+
+example : ([2] : List Nat) ≠ [] ∧ ([2] : List Nat).Nodup ∧ (slotUpdate [0, 1] [2]).1 = .reject "EdgeCreationError" ∧
+    (slotUpdate [0, 1] [1]).1 = .accept := by decide
+
+/-- every call of the catalogue of projection paths (`Operation.project_edge`, `Project.add_label` on the stored
+    edge, `Operation.project_side`, `Face.project_edge`, `Face.project`) that is accepted on an operation whose
+    edges carry at most two labels leaves every edge with at most two labels -/
+theorem T_C20_proj_step_bounded (st : PState) (op : ProjOp) (hb : Bounded st)
+    (h : (projStep st op).1 = .accept) : Bounded (projStep st op).2 := by
+  cases op with
+  | pedge c1 c2 new =>
+      cases hr : run 0 (.opProjectEdge c1 c2) with
+      | reject c => simp only [projStep, hr] at h; exact Out.noConfusion h
+      | accept =>
+          cases hs : edgeSlot c1.toNat c2.toNat with
+          | none => simp only [projStep, hr, hs] at h; exact Out.noConfusion h
+          | some s =>
+              simp only [projStep, hr, hs] at h ⊢
+              exact applySlot_bounded st s new hb h
+  | pside side label edges =>
+      simp only [projStep] at h ⊢
+      by_cases h1 : (side == "bottom") = true
+      · simp only [h1, if_true] at h ⊢
+        cases edges
+        · simpa using hb
+        · simp only [if_true] at h ⊢; exact seqSlots_bounded _ _ st hb h
+      · simp only [h1, Bool.false_eq_true, if_false] at h ⊢
+        by_cases h2 : (side == "top") = true
+        · simp only [h2, if_true] at h ⊢
+          cases edges
+          · simpa using hb
+          · simp only [if_true] at h ⊢; exact seqSlots_bounded _ _ st hb h
+        · simp only [h2, Bool.false_eq_true, if_false] at h ⊢
+          by_cases h3 : List.idxOf side CBV.Gen.sidesMap < CBV.Gen.sidesMap.length
+          · simp only [h3, if_true] at h ⊢
+            cases edges
+            · simpa using hb
+            · simp only [if_true] at h ⊢
+              cases hs : sideSlots (List.idxOf side CBV.Gen.sidesMap) with
+              | none => simp only [hs] at h; exact Out.noConfusion h
+              | some slots => simp only [hs] at h ⊢; exact seqSlots_bounded _ _ st hb h
+          · simp only [h3, if_false] at h; exact Out.noConfusion h
+  | fpedge top corner new =>
+      simp only [projStep] at h ⊢
+      by_cases h1 : faceCornerBad corner = true
+      · simp only [h1, if_true] at h; exact Out.noConfusion h
+      · simp only [h1, Bool.false_eq_true, if_false] at h ⊢
+        exact applySlot_bounded st _ new hb h
+  | fproj top label edges =>
+      simp only [projStep] at h ⊢
+      cases edges
+      · simpa using hb
+      · simp only [if_true] at h ⊢; exact seqSlots_bounded _ _ st hb h
+
+/-- **over every history of projection calls on a fresh operation in which no call was rejected, no edge ever
+    carries more than two surfaces** -/
+theorem T_C20_proj_history (ops : List ProjOp) (st : PState) (hb : Bounded st)
+    (hacc : ∀ r ∈ projRun st ops, r.1 = .accept) : ∀ r ∈ projRun st ops, Bounded r.2 := by
+  induction ops generalizing st with
+  | nil => intro r hr; simp [projRun] at hr
+  | cons op ops ih =>
+      intro r hr
+      simp only [projRun, List.mem_cons] at hr hacc
+      have h1 := hacc (projStep st op) (Or.inl rfl)
+      have hb' := T_C20_proj_step_bounded st op hb h1
+      rcases hr with rfl | hr
+      · exact hb'
+      · exact ih _ hb' (fun r hr => hacc r (Or.inr hr)) r hr
+
+theorem T_C20_proj_empty_bounded : Bounded emptyP := by
+  intro ls hls
+  simp only [emptyP, List.mem_replicate] at hls
+  rw [hls.2]; simp
+
+/-- non-vacuity: an accepted history; and the history of the tester's breaking change, whose last call the model rejects -/
+example : (projRun emptyP [.pside "front" 0 true, .pside "right" 1 true, .pedge 5 1 [0]]).map (·.1)
+      = [.accept, .accept, .accept] ∧
+    (projRun emptyP [.pedge 0 1 [0], .pedge 1 0 [1], .pedge 0 1 [2]]).map (·.1)
+      = [.accept, .accept, .reject "EdgeCreationError"] := by decide
+
 end CBV.C20
